@@ -65,6 +65,16 @@ def layout_cases():
             want = outdir + "/" + posixpath.normpath("/a/b/x/" + of).lstrip("/")
             cases.append({"id": "output-file-%d-%s" % (k, outdir.replace("/", "_")), "mode": "cli", "plugins": [], "thrift": thrift, "root": "idl/a/b/x.thrift",
                           "outdir": outdir, "args": ["--output-file", of], "expect": {"fail": False, "paths": [want]}})
+    # a ServiceGenerator handed to gen.Generate directly (no process, no transport check in between) answering with every
+    # kind of path: everything it writes stays inside the output directory; two spellings of one place conflict
+    for k, paths in enumerate([["p/ok.go"], ["../sibling/evil.go"], ["a/../../evil.go"], ["./../evil.go"], ["../../../../evil.go"], ["/abs/evil.go"],
+                               ["x/./y//z.go"], ["p/a.go", "p/./a.go"], ["p/a.go", "p/b/../a.go"], ["a/b/x/x.go"], ["./a/b/x/x.go"]]):
+        locs = [posixpath.normpath("/" + p).lstrip("/") for p in paths]
+        core = ["a/b/x/x.go", "common/y/y.go"]
+        conflict = len(set(locs)) < len(locs) or any(l in core for l in locs)
+        cases.append({"id": "direct-%d" % k, "mode": "direct", "plugins": [], "thrift": thrift, "root": "idl/a/b/x.thrift",
+                      "direct": {p: "package p\n" for p in paths},
+                      "expect": {"fail": conflict, "paths": [] if conflict else sorted("out/" + l for l in locs + core)}})
     cases.append({"id": "compile-error", "mode": "cli", "plugins": [], "thrift": {"idl/x.thrift": "struct X { 1: optional Nope n }\n"},
                   "root": "idl/x.thrift", "expect": {"fail": True, "paths": []}})
     return cases
